@@ -36,6 +36,7 @@ GENERATORS = [
     ('gen_args.py', 'ArgGen.v', 'translate-args'),
     ('gen_reader.py', 'ReadGen.v', 'translate-reader'),
     ('gen_views.py', 'ViewGen.v', 'translate-views'),
+    ('gen_edit.py', 'EditGen.v', 'translate-edit'),
 ]
 # properties whose theorems are about the reader model (the others quantify
 # over arbitrary trees / lists / buffers)
@@ -47,6 +48,7 @@ GEN_PROPS = {
     'translate-args': (('C18',), 'C18gen.v'),
     'translate-reader': (READER_PROPS, 'ReadGen.v'),
     'translate-views': (('C03', 'C04'), ('C03gen.v', 'C04gen.v')),
+    'translate-edit': (('C05', 'C14'), ('C05gen.v', 'C14gen.v')),
 }
 # Props files that are obligations of several properties (not named after one)
 SHARED_PROPS = {'ReadGen.v': READER_PROPS}
